@@ -267,6 +267,9 @@ func clientMain() {
 	os.Exit(0)
 }
 
+// maxServerFrame: the longest multiplexed frame any real server emitted during the reframing sessions
+var maxServerFrame int
+
 func runReframeSession(src, dest string, rf reframer, g *rng) (status string, stderr string, err error) {
 	args := []string{"-a"}
 	cl, err := rsyncclient.New(args, rsyncclient.DontRestrict())
@@ -319,6 +322,11 @@ func runReframeSession(src, dest string, rf reframer, g *rng) (status string, st
 					return
 				}
 				v := binary.LittleEndian.Uint32(h[:])
+				// (sessions with an injected error are excluded: once the client is gone the server's
+				// failing goroutines may interleave their last writes)
+				if n := int(v & 0xffffff); n > maxServerFrame && rf.errAt < 0 {
+					maxServerFrame = n // largest frame the real server emitted (server_frames_wellformed)
+				}
 				p := make([]byte, v&0xffffff)
 				if _, err := io.ReadFull(s2pR, p); err != nil {
 					return
@@ -451,6 +459,15 @@ func runReframe(r *run, g *rng) error {
 	}
 	for i, rf := range rfs {
 		dest := filepath.Join(base, fmt.Sprintf("dest%d", i))
+		if i%2 == 0 {
+			// an older, shorter copy: the transfer is a delta whose last literal run exceeds 256 KiB
+			if b, err := os.ReadFile(filepath.Join(src, "d", "e.bin")); err == nil {
+				os.MkdirAll(filepath.Join(dest, "d"), 0o755)
+				os.WriteFile(filepath.Join(dest, "d", "e.bin"), b[:20000], 0o644)
+				old := time.Unix(1_400_000_000, 0)
+				os.Chtimes(filepath.Join(dest, "d", "e.bin"), old, old)
+			}
+		}
 		status, stderr, err := runReframeSession(src, dest, rf, g)
 		if err != nil {
 			return err
@@ -475,6 +492,10 @@ func runReframe(r *run, g *rng) error {
 			}
 		}
 		os.RemoveAll(dest)
+	}
+	r.notes["max_server_frame"] = maxServerFrame
+	if limit := genConst("c_maxMessageSize", 262144); maxServerFrame > limit {
+		r.oracleFail("reframe/server-frame-length", fmt.Sprintf("the server emitted a multiplexed frame of %d bytes, more than the %d a client accepts", maxServerFrame, limit), map[string]any{"max_frame": maxServerFrame})
 	}
 	return nil
 }
